@@ -143,10 +143,22 @@ def check_case(case):
         # a second rendering of the same universe after attributes / membership changed must show the NEW state;
         # with the same table object, or with ANOTHER table (subclass entries toggled: nearer ancestors (dis)appear)
         opt2 = case["opt"] if sel & 1 else case["opt"] ^ 2
+        edited_in_place = False
         if opt2 != case["opt"]:
-            keep.pop("options", None)
+            if case["opt"] & 1024 and "options" in keep:
+                # the caller EDITS its table object in place (entries for subclasses added / removed) and passes the
+                # very same dict again
+                table = keep["options"]
+                newer, _ = make_options(opt2, case["extra"])
+                for k in list(table):
+                    if k not in newer:
+                        del table[k]
+                table.update(newer)
+                edited_in_place = True
+            else:
+                keep.pop("options", None)
         info2 = _check_render(case, vs, ls, u, opt2, keep)
-        info["classes"] = sorted(set(info["classes"]) | {"re-rendered-after-change"} | ({"re-rendered-with-another-table"} if opt2 != case["opt"] else {"same-table-object-reused"}))
+        info["classes"] = sorted(set(info["classes"]) | {"re-rendered-after-change"} | ({"re-rendered-with-table-edited-in-place"} if edited_in_place else {"re-rendered-with-another-table"} if opt2 != case["opt"] else {"same-table-object-reused"}))
         info["nt"] = info["nt"] or info2["nt"]
     return info
 
